@@ -16,7 +16,12 @@ def key(rj, lines):
         kind = json.loads(lines[a - 1]).get("kind", "?")
     except Exception:
         pass
-    return "C13/%s/%s/%s" % (kind, rj["clause"], ev.get("name", ev.get("e", "?")))
+    name = ev.get("name", ev.get("e", "?"))
+    # a crash right after the marker of a resize / rvalue push whose argument is an element of the container itself
+    ln = rj["line"]
+    if ev.get("e") == "crash" and ln >= 2 and lines[ln - 2].startswith('{"e":"AliasArg"'):
+        name = "crash/argument_refers_to_own_element_in_resize_or_rvalue_push"
+    return "C13/%s/%s/%s" % (kind, rj["clause"], name)
 
 
 def run(ctx):
@@ -61,4 +66,15 @@ def run(ctx):
             with open(tp2, "a") as out:
                 out.write(open(part).read())
             os.remove(part)
+    # probe histories for the listed known finding (int elements; capacity 2 / inline capacity reached, then the call grows)
+    probes = [[{"name": "push", "d": 1, "x": 1, "y": 0}, {"name": "push", "d": 1, "x": 2, "y": 0}, {"name": nm, "d": 1, "x": 0, "y": 0}]
+              for nm in ("resize_alias", "push_move_alias")]
+    hp = os.path.join(ctx.work, "seq_probe.hist")
+    core.write_ndjson(hp, probes)
+    for kind in ("vector", "small_vector1"):
+        part = tp2 + ".part"
+        core.run_histories(binary, ["--kind", kind], hp, part, len(probes))
+        with open(tp2, "a") as out:
+            out.write(open(part).read())
+        os.remove(part)
     ctx.validate("Seq", "SeqTrace", "SeqTrace.cfg", tp2, "container random histories", keyfn=key)
